@@ -248,4 +248,333 @@ theorem pregel_quiet (ops : ValOps V) (r : Runner V) (hdag : r.dag = false) (cm 
         rw [← h1]
         exact getReady_pregel_values ops _
 
+/-! ### a per-channel invariant is kept by every operation of a superstep -/
+
+/-- `P` is kept by the four channel operations -/
+structure OpsPreserve (P : Chan V → Prop) : Prop where
+  values : ∀ dag c (ins : List (Key × V)), P c → P (c.reportValues dag ins)
+  deps : ∀ dag c ds, P c → P (c.reportDeps dag ds)
+  skip : ∀ dag c ks, P c → P (c.reportSkip dag ks).1
+  get : ∀ (ops : ValOps V) dag c, P c → P (c.get ops dag).1
+
+def AllP (P : Chan V → Prop) (cm : Chans V) : Prop := ∀ p ∈ cm, P p.2
+
+theorem modChan_allP (P : Chan V → Prop) (cm : Chans V) (k : Key) (f : Chan V → Chan V)
+    (hf : ∀ c, P c → P (f c)) (h : AllP P cm) : AllP P (modChan cm k f) := by
+  intro p hp
+  simp only [modChan, List.mem_map] at hp
+  obtain ⟨q, hq, rfl⟩ := hp
+  split
+  · exact hf _ (h q hq)
+  · exact h q hq
+
+theorem alookup_mem {α} (k : Key) (l : List (Key × α)) (v : α) (h : alookup k l = some v) : ∃ k', (k', v) ∈ l := by
+  induction l with
+  | nil => simp [alookup] at h
+  | cons p rest ih =>
+    simp only [alookup] at h
+    split at h
+    · injection h with h; exact ⟨p.1, by rw [← h]; simp⟩
+    · obtain ⟨k', hk'⟩ := ih h; exact ⟨k', by simp [hk']⟩
+
+theorem skipOne_allP (P : Chan V → Prop) (hP : OpsPreserve P) (dag : Bool) (cm : Chans V) (k f : Key)
+    (h : AllP P cm) : AllP P (skipOne dag cm k f).1 := by
+  unfold skipOne
+  split
+  · exact h
+  · cases hl : alookup k cm with
+    | none => exact h
+    | some c =>
+      show AllP P (modChan cm k (fun _ => (Chan.reportSkip dag c [f]).1))
+      obtain ⟨k', hk'⟩ := alookup_mem k cm c hl
+      exact modChan_allP P cm k _ (fun _ _ => hP.skip dag c [f] (h (k', c) hk')) h
+
+theorem foldl_skip_allP (P : Chan V → Prop) (hP : OpsPreserve P) (dag : Bool) (g : Key → Key) :
+    ∀ (l : List Key) (acc : Chans V × List Key), AllP P acc.1 →
+    AllP P (l.foldl (fun (acc : Chans V × List Key) s =>
+        let (cm1, b) := skipOne dag acc.1 s (g s)
+        (cm1, if b then acc.2 ++ [s] else acc.2)) acc).1 := by
+  intro l
+  induction l with
+  | nil => intro acc h; exact h
+  | cons s rest ih =>
+    intro acc h
+    simp only [List.foldl_cons]
+    apply ih
+    exact skipOne_allP P hP _ _ _ _ h
+
+theorem propagateSkips_allP (P : Chan V → Prop) (hP : OpsPreserve P) (r : Runner V) :
+    ∀ (fuel : Nat) (cm : Chans V) (ks : List Key) (cm' : Chans V),
+    propagateSkips r fuel cm ks = .ok cm' → AllP P cm → AllP P cm' := by
+  intro fuel
+  induction fuel with
+  | zero => intro cm ks cm' h hp; simp [propagateSkips] at h; rw [← h]; exact hp
+  | succ n ih =>
+    intro cm ks cm' h hp
+    cases ks with
+    | nil => simp [propagateSkips] at h; rw [← h]; exact hp
+    | cons k rest =>
+      simp only [propagateSkips] at h
+      split at h
+      · simp at h
+      · exact ih _ _ _ h (foldl_skip_allP P hP r.dag (fun _ => k) _ _ hp)
+
+theorem reportBranch_allP (P : Chan V → Prop) (hP : OpsPreserve P) (r : Runner V) (cm : Chans V) (from_ : Key)
+    (sk : List Key) (cm' : Chans V) (h : reportBranch r cm from_ sk = .ok cm') (hp : AllP P cm) : AllP P cm' := by
+  unfold reportBranch at h
+  exact propagateSkips_allP P hP r _ _ _ _ h (foldl_skip_allP P hP r.dag (fun _ => from_) _ _ hp)
+
+theorem calcBranch_allP (P : Chan V → Prop) (hP : OpsPreserve P) (r : Runner V) (cm : Chans V) (n : Node V) (out : V)
+    (cm' : Chans V) (sel : List Key) (h : calcBranch r cm n out = .ok (cm', sel)) (hp : AllP P cm) : AllP P cm' := by
+  unfold calcBranch at h
+  simp only [bind, Except.bind, pure, Except.pure] at h
+  split at h
+  · simp at h
+  · split at h
+    · simp at h
+    · rename_i cm'' hrb
+      injection h with h
+      injection h with h1 _
+      subst h1
+      exact reportBranch_allP P hP r cm n.key _ _ hrb hp
+
+theorem resolveStep_allP (P : Chan V → Prop) (hP : OpsPreserve P) (r : Runner V) (acc : Resolved V) (t : Done V)
+    (res : Resolved V) (h : resolveStep r acc t = .ok res) (hp : AllP P acc.cm) : AllP P res.cm := by
+  unfold resolveStep at h
+  split at h
+  · simp only [pure, Except.pure] at h; injection h with h; rw [← h]; exact hp
+  · simp only [bind, Except.bind, pure, Except.pure] at h
+    split at h
+    · simp at h
+    · rename_i p hcb
+      obtain ⟨cm', sel⟩ := p
+      injection h with h
+      rw [← h]
+      exact calcBranch_allP P hP r acc.cm _ _ cm' sel hcb hp
+
+theorem foldlM_resolve_allP (P : Chan V → Prop) (hP : OpsPreserve P) (r : Runner V) :
+    ∀ (done : List (Done V)) (acc res : Resolved V),
+    done.foldlM (resolveStep r) acc = .ok res → AllP P acc.cm → AllP P res.cm := by
+  intro done
+  induction done with
+  | nil => intro acc res h hp; simp only [List.foldlM_nil, pure, Except.pure] at h; injection h with h; rw [← h]; exact hp
+  | cons t rest ih =>
+    intro acc res h hp
+    simp only [List.foldlM_cons, bind, Except.bind] at h
+    split at h
+    · simp at h
+    · rename_i acc' hstep
+      exact ih acc' res h (resolveStep_allP P hP r acc t acc' hstep hp)
+
+theorem updateValues_allP (P : Chan V → Prop) (hP : OpsPreserve P) (r : Runner V) (cm : Chans V)
+    (w : List (Key × List (Key × V))) (hp : AllP P cm) : AllP P (updateValues r cm w) := by
+  unfold updateValues
+  induction w generalizing cm with
+  | nil => exact hp
+  | cons x rest ih =>
+    simp only [List.foldl_cons]
+    apply ih
+    exact modChan_allP P cm _ _ (fun c hc => hP.values r.dag c _ hc) hp
+
+theorem updateDeps_allP (P : Chan V → Prop) (hP : OpsPreserve P) (r : Runner V) (cm : Chans V)
+    (d : List (Key × List Key)) (hp : AllP P cm) : AllP P (updateDeps r cm d) := by
+  unfold updateDeps
+  induction d generalizing cm with
+  | nil => exact hp
+  | cons x rest ih =>
+    simp only [List.foldl_cons]
+    apply ih
+    exact modChan_allP P cm _ _ (fun c hc => hP.deps r.dag c _ hc) hp
+
+theorem getReady_allP (P : Chan V → Prop) (hP : OpsPreserve P) (ops : ValOps V) (dag : Bool) :
+    ∀ (cm : Chans V), AllP P cm → AllP P (getReady ops dag cm).1 := by
+  intro cm
+  induction cm with
+  | nil => intro _ p hp; simp [getReady] at hp
+  | cons q rest ih =>
+    obtain ⟨k, c⟩ := q
+    intro h p hp
+    have hc : P (c.get ops dag).1 := hP.get ops dag c (h (k, c) (by simp))
+    have hr := ih (fun p hp => h p (by simp [hp]))
+    simp only [getReady] at hp
+    split at hp <;> (simp only [List.mem_cons] at hp; rcases hp with rfl | hp; exact hc; exact hr p hp)
+
+theorem calcNext_allP (P : Chan V → Prop) (hP : OpsPreserve P) (ops : ValOps V) (r : Runner V) (cm : Chans V)
+    (done : List (Done V)) (cm' : Chans V) (nx : Next V)
+    (h : calcNext ops r cm done = .ok (cm', nx)) (hp : AllP P cm) : AllP P cm' := by
+  unfold calcNext at h
+  simp only [bind, Except.bind] at h
+  split at h
+  · simp at h
+  · rename_i res hres
+    have hk : AllP P (getReady ops r.dag (updateDeps r (updateValues r res.cm res.writes) res.deps)).1 :=
+      getReady_allP P hP ops r.dag _ (updateDeps_allP P hP r _ _ (updateValues_allP P hP r _ _
+        (foldlM_resolve_allP P hP r done _ res hres hp)))
+    split at h
+    · simp [throw, throwThe, MonadExceptOf.throw] at h
+    · split at h
+      · simp only [pure, Except.pure] at h
+        injection h with h; injection h with h1 _
+        rw [← h1]; exact hk
+      · simp only [pure, Except.pure] at h
+        injection h with h; injection h with h1 _
+        rw [← h1]; exact hk
+
+/-! ### all-predecessor mode: a channel that has a predecessor is not ready right after `get` -/
+
+/-- the channel was built with at least one (control or data) predecessor -/
+def HasPred (c : Chan V) : Prop := c.ctrl ≠ [] ∨ c.data ≠ []
+
+/-- executable form (for concrete runners) -/
+theorem allP_hasPred_of_all (cm : Chans V)
+    (h : cm.all (fun p => !p.2.ctrl.isEmpty || !p.2.data.isEmpty) = true) : AllP HasPred cm := by
+  intro p hp
+  have := List.all_eq_true.1 h p hp
+  simp only [Bool.or_eq_true, Bool.not_eq_true', List.isEmpty_eq_false_iff] at this
+  exact this
+
+theorem aset_ne_nil {α} (k : Key) (v : α) (l : List (Key × α)) : aset k v l ≠ [] := by
+  cases l with
+  | nil => simp [aset]
+  | cons p rest => simp only [aset]; split <;> simp
+
+theorem foldl_keep {α β} (Q : β → Prop) (f : β → α → β) (hf : ∀ b a, Q b → Q (f b a)) :
+    ∀ (l : List α) (b : β), Q b → Q (l.foldl f b) := by
+  intro l
+  induction l with
+  | nil => intro b h; exact h
+  | cons a rest ih => intro b h; exact ih _ (hf b a h)
+
+theorem hasPred_setCtrl (b : Chan V) (a : Key) (d : Dep) (h : HasPred b) :
+    HasPred (if (alookup a b.ctrl).isSome then { b with ctrl := aset a d b.ctrl } else b) := by
+  split
+  · exact Or.inl (aset_ne_nil _ _ _)
+  · exact h
+
+theorem hasPred_setData (b : Chan V) (a : Key) (h : HasPred b) :
+    HasPred (if (alookup a b.data).isSome then { b with data := aset a true b.data } else b) := by
+  split
+  · rcases h with h | _
+    · exact Or.inl h
+    · exact Or.inr (aset_ne_nil _ _ _)
+  · exact h
+
+theorem hasPred_ops : OpsPreserve (HasPred (V := V)) where
+  values := by
+    intro dag c ins h
+    unfold Chan.reportValues
+    split
+    · split
+      · exact h
+      · apply foldl_keep HasPred _ _ ins c h
+        intro b a hb
+        split
+        · rcases hb with hb | _
+          · exact Or.inl hb
+          · exact Or.inr (aset_ne_nil _ _ _)
+        · exact hb
+    · apply foldl_keep HasPred _ _ ins c h
+      intro b a hb
+      exact hb
+  deps := by
+    intro dag c ds h
+    unfold Chan.reportDeps
+    split
+    · split
+      · exact h
+      · apply foldl_keep HasPred _ _ ds c h
+        intro b a hb
+        split
+        · exact Or.inl (aset_ne_nil _ _ _)
+        · exact hb
+    · exact h
+  skip := by
+    intro dag c ks h
+    unfold Chan.reportSkip
+    split
+    · show HasPred _
+      have : HasPred (ks.foldl (fun (c : Chan V) k =>
+          let c := if (alookup k c.ctrl).isSome then { c with ctrl := aset k Dep.skipped c.ctrl } else c
+          if (alookup k c.data).isSome then { c with data := aset k true c.data } else c) c) := by
+        apply foldl_keep HasPred _ _ ks c h
+        intro b a hb
+        exact hasPred_setData _ a (hasPred_setCtrl b a Dep.skipped hb)
+      exact this
+    · exact h
+  get := by
+    intro ops dag c h
+    unfold Chan.get
+    split
+    · split
+      · rcases h with h | h
+        · left; simpa [Chan.reset] using h
+        · right; simpa [Chan.reset] using h
+      · exact h
+    · split
+      · exact h
+      · exact h
+
+theorem reset_not_triggered (c : Chan V) (h : HasPred c) (_ht : c.triggered = true) : c.reset.triggered = false := by
+  unfold Chan.triggered
+  simp only [Chan.reset]
+  rcases h with h | h
+  · have : (c.ctrl.map (fun p => (p.1, Dep.waiting))).any (fun p => p.2 == Dep.waiting) = true := by
+      cases hc : c.ctrl with
+      | nil => exact absurd hc h
+      | cons p rest => simp
+    rw [this]; simp
+  · have : (c.data.map (fun p => (p.1, false))).any (fun p => p.2 == false) = true := by
+      cases hc : c.data with
+      | nil => exact absurd hc h
+      | cons p rest => simp
+    rw [this]; simp
+
+theorem get_dag_quiet (ops : ValOps V) (c : Chan V) (h : HasPred c) :
+    ((c.get ops true).1).get ops true = ((c.get ops true).1, .notReady) := by
+  unfold Chan.get
+  simp only [ite_true]
+  by_cases ht : c.triggered = true
+  · simp only [ht, ite_true, reset_not_triggered c h ht, Bool.false_eq_true, ite_false]
+  · simp only [ht, ite_false, Bool.false_eq_true]
+
+theorem getReady_dag_quiet (ops : ValOps V) : ∀ (cm : Chans V), AllP HasPred cm →
+    getReady ops true (getReady ops true cm).1 = ((getReady ops true cm).1, [], false) := by
+  intro cm
+  induction cm with
+  | nil => intro _; rfl
+  | cons q rest ih =>
+    obtain ⟨k, c⟩ := q
+    intro h
+    have hc := get_dag_quiet ops c (h (k, c) (by simp))
+    have hr := ih (fun p hp => h p (by simp [hp]))
+    simp only [getReady]
+    split <;> simp only [getReady, hc, hr]
+
+/-- all-predecessor mode: on channels that all have a predecessor, the second `calculateNextTasks`
+    of the interrupt path is a no-op, and the invariant is kept -/
+theorem dag_quiet (ops : ValOps V) (r : Runner V) (hdag : r.dag = true) (cm : Chans V) (done : List (Done V))
+    (cm' : Chans V) (ts : List (Key × V)) (hinv : AllP HasPred cm)
+    (h : calcNext ops r cm done = .ok (cm', .tasks ts)) :
+    AllP HasPred cm' ∧ calcNext ops r cm' [] = .ok (cm', .tasks []) := by
+  refine ⟨calcNext_allP HasPred hasPred_ops ops r cm done cm' _ h hinv, ?_⟩
+  apply calcNext_nil
+  rw [hdag]
+  unfold calcNext at h
+  simp only [bind, Except.bind, hdag] at h
+  split at h
+  · simp at h
+  · rename_i res hres
+    have hall : AllP HasPred (updateDeps r (updateValues r res.cm res.writes) res.deps) :=
+      updateDeps_allP HasPred hasPred_ops r _ _ (updateValues_allP HasPred hasPred_ops r _ _
+        (foldlM_resolve_allP HasPred hasPred_ops r done _ res hres hinv))
+    split at h
+    · simp [throw, throwThe, MonadExceptOf.throw] at h
+    · split at h
+      · simp only [pure, Except.pure] at h
+        injection h with h; injection h with _ h2; cases h2
+      · simp only [pure, Except.pure] at h
+        injection h with h; injection h with h1 _
+        rw [← h1]
+        exact getReady_dag_quiet ops _ hall
+
 end EinoV.Interrupt
